@@ -4,7 +4,7 @@
 From Coq Require Import List NArith Bool.
 From Frugal Require Import Bytes Wire Skip Values Desc Spec Encode Decode Checks Tags State Bitset Alloc DescMap Conc LegacyDefs.
 From Frugal.gen Require Import Params.
-From Frugal.proofs Require Import GenParams Corollaries.
+From Frugal.proofs Require Import GenDecParams GenDepth Corollaries.
 From Frugal.props Require Import Examples.
 Import ListNotations.
 
@@ -17,7 +17,7 @@ Proof. exact budget_zero. Qed.
 (* a well-formed message whose only defect is depth beyond the budget is rejected with the depth error
    (types without nocopy fields, for which the accounting is exact) *)
 Theorem C15_deep_rejected : forall env pool sid fs rest dst v,
-  params_ok = true -> env_ok env = true ->
+  dec_params_ok = true -> env_ok env = true ->
   (forall sd f, In sd env -> In f (sfields sd) -> fnocopy f = false) ->
   wf (WStruct fs []) = true -> absorb_top env sid (WStruct fs []) dst = AOk v ->
   (skipped_depth env (TStruct sid) (WStruct fs []) <= 63)%nat ->
@@ -29,15 +29,15 @@ Print Assumptions C15_deep_rejected.
 (* messages nested no deeper than 48 levels are never rejected for depth, neither by the decoder
    nor by the skipper of unknown fields *)
 Theorem C15_shallow_accepted : forall env pool sid fs rest dst,
-  params_ok = true -> env_ok env = true -> wf (WStruct fs []) = true -> (wdepth (WStruct fs []) <= 48)%nat ->
+  dec_params_ok = true -> depth_ok = true -> env_ok env = true -> wf (WStruct fs []) = true -> (wdepth (WStruct fs []) <= 48)%nat ->
   decode_object env pool sid (put (WStruct fs []) ++ rest) dst <> DErr EDepth /\
   (forall e, decode_object env pool sid (put (WStruct fs []) ++ rest) dst <> DErr (ESkip e)).
 Proof. exact shallow_never_depth. Qed.
 Print Assumptions C15_shallow_accepted.
 
 (* the constants read from the source leave room for 48 levels *)
-Theorem C15_limits : params_ok = true.
-Proof. exact params_ok_holds. Qed.
+Theorem C15_limits : depth_ok = true.
+Proof. exact depth_ok_holds. Qed.
 
 Fixpoint chain (n : nat) : tv := match n with O => WStruct [(5, WI32 0)] [] | S k => WStruct [(5, WI32 0); (7, chain k)] [] end.
 Example C15_instance :
@@ -47,5 +47,5 @@ Proof. split; [eexists; eexists|]; vm_compute; reflexivity. Qed.
 
 (* the side conditions on the generated constants and tables that the theorems above assume hold
    for what the translator read from the sources of this run *)
-Theorem C15_side_conditions : params_ok = true.
-Proof. exact params_ok_holds. Qed.
+Theorem C15_side_conditions : dec_params_ok = true /\ depth_ok = true.
+Proof. split; [exact dec_params_ok_holds | exact depth_ok_holds]. Qed.
